@@ -11,7 +11,9 @@
      weed/storage/needle/file_id.go                  FileId.String, formatNeedleIdCookie, ParseFileIdFromString
      weed/storage/needle/needle.go                   ParsePath, ParseNeedleIdCookie
      weed/storage/types                              ParseNeedleId, ParseCookie, OffsetToBytes/BytesToOffset,
-                                                     ToOffset/ToActualOffset (4-byte offsets)
+                                                     ToOffset/ToActualOffset (4-byte offsets; the *_w
+                                                     definitions take the width [osz] = types.OffsetSize,
+                                                     4 or 5 with -tags 5BytesOffset)
      weed/storage/needle_map/needle_value.go         ToBytes;  weed/storage/idx/walk.go IdxFileEntry
    Strings are byte lists ([list N], bytes < 256).  The strconv functions (Atoi, ParseUint,
    Itoa/FormatUint), hex.EncodeToString and fmt "%03d" are modelled by their specification.
@@ -300,6 +302,46 @@ Definition idx_bytes (key off : N) (size : Z) : list N :=
 (* idx.IdxFileEntry *)
 Definition idx_parse (b : list N) : N * N * Z :=
   (be_decode (takeN 8 b), be_decode (takeN 4 (dropN 8 b)), to_int32 (be_decode (takeN 4 (dropN 12 b)))).
+
+(* ---------- offsets and index entries by offset width ---------- *)
+(* [osz] = types.OffsetSize: 4 (offset_4bytes.go) or 5 (offset_5bytes.go, -tags 5BytesOffset).
+   An Offset is the number b0 + b1<<8 + b2<<16 + b3<<24 (+ b4<<32). *)
+Definition off_limit (osz : N) : N := if osz =? 5 then 1099511627776 else 4294967296.   (* 2^40 / 2^32 *)
+(* types.MaxPossibleVolumeSize: 32 GiB, times 256 with 5 bytes; = NeedlePaddingSize x off_limit *)
+Definition max_volume_size (osz : N) : N := 8 * off_limit osz.
+(* ToOffset: 4 bytes uint32(offset/8); 5 bytes b0..b3 = byte(smaller >> 0..24), b4 = byte(smaller >> 32) *)
+Definition to_offset_w (osz actual : N) : N := (actual / 8) mod off_limit osz.
+(* OffsetToBytes: bytes[0..3] = b3 b2 b1 b0 (big endian), bytes[4] = b4 *)
+Definition off_bytes (osz off : N) : list N :=
+  be_encode 4 (off mod 4294967296) ++ (if osz =? 5 then [(off / 4294967296) mod 256] else []).
+(* BytesToOffset *)
+Definition off_parse (osz : N) (b : list N) : N :=
+  be_decode (takeN 4 b) + (if osz =? 5 then nth 4 b 0 * 4294967296 else 0).
+(* needle_map.ToBytes(key, offset, size): NeedleMapEntrySize = 8 + osz + 4 bytes *)
+Definition idx_bytes_w (osz key off : N) (size : Z) : list N :=
+  be_encode 8 key ++ off_bytes osz off ++ be_encode 4 (of_int32 size).
+(* idx.IdxFileEntry *)
+Definition idx_parse_w (osz : N) (b : list N) : N * N * Z :=
+  (be_decode (takeN 8 b), off_parse osz (takeN osz (dropN 8 b)),
+   to_int32 (be_decode (takeN 4 (dropN (8 + osz) b)))).
+
+(* ---------- SuperBlock.Bytes with its size guard ---------- *)
+(* Bytes(): glog.Fatalf (process exit, modelled as None) when len(extraData) > 256*256-2 *)
+Definition sb_extra_max : N := 65534.
+Definition sb_bytes_checked (s : super_block) : option (list N) :=
+  if sb_extra_max <? len (sb_extra s) then None else Some (sb_bytes s).
+(* Note on sb_extra = []: Go writes the same 8 bytes for Extra == nil and for a non-nil Extra that
+   marshals to nothing (ExtraSize 0, nothing appended); ReadSuperBlock then returns Extra == nil.
+   The model identifies the two: both are sb_extra = []. *)
+
+(* ---------- trigger sets of the known findings ---------- *)
+(* finding 0: formatNeedleIdCookie strips ALL eight key bytes when the key is 0, leaving the 8
+   cookie digits only; ParseNeedleIdCookie rejects that string ("KeyHash is too short") *)
+Definition trig_key0 (key : N) : bool := key =? 0.
+(* finding 1: LoadTTLFromUint32 looks at the low 16 bits only and has no error path: an integer
+   that is not the ToUint32 of any TTL (bits above 16 set, or count byte 0 with a unit) is decoded
+   all the same.  Exactly the integers x with ToUint32(LoadTTLFromUint32 x) <> x. *)
+Definition trig_ttl_u32 (x : N) : bool := (65536 <=? x) || ((0 <? x) && (x <? 256)).
 
 (* ---------- small helpers for the check ---------- *)
 Definition rp_eqb (a b : rp) : bool :=
